@@ -320,6 +320,9 @@ func cmdCheck(args []string) int {
 	loadS := time.Since(t0).Seconds()
 	known := loadKnown()
 	replayDir := filepath.Join(verifDir, "replays", id)
+	if d := os.Getenv("GOSMT_REPLAYS"); d != "" {
+		replayDir = filepath.Join(d, id)
+	}
 	os.RemoveAll(replayDir)
 
 	var results []*sym.HarnessResult
@@ -588,9 +591,13 @@ func cmdCheck(args []string) int {
 		"wall_s":      time.Since(t0).Seconds(),
 		"violations":  violations,
 	}
-	os.MkdirAll(filepath.Join(verifDir, "evidence"), 0o755)
+	evDir := filepath.Join(verifDir, "evidence")
+	if d := os.Getenv("GOSMT_EVIDENCE"); d != "" {
+		evDir = d // seeded-change experiments must not overwrite the evidence of the real tree
+	}
+	os.MkdirAll(evDir, 0o755)
 	eb, _ := json.MarshalIndent(evid, "", " ")
-	os.WriteFile(filepath.Join(verifDir, "evidence", id+".json"), eb, 0o644)
+	os.WriteFile(filepath.Join(evDir, id+".json"), eb, 0o644)
 	fmt.Printf("check %s tier=%s: paths=%d obligations: folded=%d unsat=%d sat=%d unknown=%d bound=%d replays=%d violations=%d wall=%.1fs\n",
 		id, *tier, tot.paths, tot.trivial, tot.unsat, tot.sat, tot.unknown, tot.bound, replays, violations, time.Since(t0).Seconds())
 	if violations > 0 {
